@@ -116,50 +116,58 @@ impl LogicalLineFileFormatter for OptimisingLineFormatter {
         let string_formatter = multiline_strings::StringFormatter {
             recon_settings: &self.recon_settings,
         };
-        let mut lines_to_reflow: Vec<(usize, &LogicalLine)> = vec![];
-        for mut line in input.iter().enumerate() {
-            if string_formatter.format_multiline_strings(line.1, olf.formatted_tokens) {
-                // Need to reflow the line now that the strings have been changed.
-                // All line-wrapping starts from the top-level parent line, though.
-                while let Some(parent) = line.1.get_parent() {
-                    line = (parent.line_index, &input[parent.line_index]);
-                }
-
-                lines_to_reflow.push(line);
-            };
-        }
-
-        // Avoid reformatting the same parent line many times.
-        lines_to_reflow.sort_by_key(|line| line.0);
-        lines_to_reflow.dedup_by_key(|line| line.0);
-
-        if lines_to_reflow.is_empty() {
-            return;
-        }
-
         /*
-            The first round removed the spaces in front of every token that started a
-            physical line. The second round can place those tokens in the middle of a
-            line (and others at the start of one), so the spacing is restored before
-            reflowing and removed at the line starts again afterwards.
+            Reflowing a line can move a multi-line string that comes later in the same
+            line, whose contents then have to be indented again (and the line reflowed
+            again). The two steps are alternated until nothing changes; the bound only
+            guards against an oscillation.
         */
-        for token_index in 0..olf.formatted_tokens.len() {
-            let spaces_before = olf.token_lengths[token_index].spaces_before;
-            if let Some(data) = olf.formatted_tokens.get_formatting_data_mut(token_index) {
-                data.spaces_before = spaces_before.try_into().unwrap_or(u16::MAX);
-            }
-        }
+        for _round in 0..4 {
+            let mut lines_to_reflow: Vec<(usize, &LogicalLine)> = vec![];
+            for mut line in input.iter().enumerate() {
+                if string_formatter.format_multiline_strings(line.1, olf.formatted_tokens) {
+                    // Need to reflow the line now that the strings have been changed.
+                    // All line-wrapping starts from the top-level parent line, though.
+                    while let Some(parent) = line.1.get_parent() {
+                        line = (parent.line_index, &input[parent.line_index]);
+                    }
 
-        for line in lines_to_reflow {
-            if let Some(solution) = olf.format_line(line) {
-                olf.reconstruct_solution(&solution, line.1);
+                    lines_to_reflow.push(line);
+                };
             }
-        }
 
-        for token_index in 0..olf.formatted_tokens.len() {
-            if let Some(data) = olf.formatted_tokens.get_formatting_data_mut(token_index) {
-                if data.newlines_before > 0 {
-                    data.spaces_before = 0;
+            // Avoid reformatting the same parent line many times.
+            lines_to_reflow.sort_by_key(|line| line.0);
+            lines_to_reflow.dedup_by_key(|line| line.0);
+
+            if lines_to_reflow.is_empty() {
+                return;
+            }
+
+            /*
+                The previous round removed the spaces in front of every token that started
+                a physical line. This round can place those tokens in the middle of a line
+                (and others at the start of one), so the spacing is restored before
+                reflowing and removed at the line starts again afterwards.
+            */
+            for token_index in 0..olf.formatted_tokens.len() {
+                let spaces_before = olf.token_lengths[token_index].spaces_before;
+                if let Some(data) = olf.formatted_tokens.get_formatting_data_mut(token_index) {
+                    data.spaces_before = spaces_before.try_into().unwrap_or(u16::MAX);
+                }
+            }
+
+            for line in lines_to_reflow {
+                if let Some(solution) = olf.format_line(line) {
+                    olf.reconstruct_solution(&solution, line.1);
+                }
+            }
+
+            for token_index in 0..olf.formatted_tokens.len() {
+                if let Some(data) = olf.formatted_tokens.get_formatting_data_mut(token_index) {
+                    if data.newlines_before > 0 {
+                        data.spaces_before = 0;
+                    }
                 }
             }
         }
